@@ -32,6 +32,8 @@ package doif
 //@ func NewLogicalNode
 //@   option check-nil no
 //@   ensures result1 == nil ==> len(operands) >= 1
+//@   ensures result1 == nil ==> result0.operands == operands
+//@   ensures result1 == nil ==> (op == "or" ==> result0.op == logicalOr) && (op == "and" ==> result0.op == logicalAnd) && (op == "not" ==> result0.op == logicalNot && len(operands) == 1)
 
 // fieldOpNode.Check, list operators: once past the length fast-check, the result
 // is "some configured value satisfies the operator on the (possibly truncated /
